@@ -15,6 +15,8 @@ def check(ctx):
     pr = commits.r15_descriptor_after_loop(ctx)
     commits.r15_descriptor_write(ctx)
     commits.r15_datafile_order(ctx)
+    from rules import errors
+    errors.r14_stopiteration_drivers(ctx)
     # each yielded stream is the one produced by process_resource (so that the file is finished when the stream ends)
     rls = [rl for rl in find_resloops(repo, res, pr, [pr.params[1]]) if rl.kind == 'for']
     facts = Facts(pr, include_nested=False)
